@@ -702,8 +702,12 @@ def fam_td7(ps, optk, hid, case):
                     zsa, zs = f_(o, a_)
                     nzsa, nzs = ft_(no, na)
                     qn = jnp.clip(ct_(jnp.concatenate((no, na), -1), zsa=nzsa, zs=nzs).squeeze(), qlim[0], qlim[1])
-                    y = r + (1 - t) * GAMMA * qn
-                    return TD7._sum_of_qnet_losses(o, a_, zsa, zs, y, 1.0, c_)[0]
+                    y = jax.lax.stop_gradient(r + (1 - t) * GAMMA * qn)
+                    # harness-written regression of both heads (the repository's own loss helper cannot vouch for its gradient)
+                    sa = jnp.concatenate((o, a_), -1)
+                    q1 = c_.q1(sa, zsa=zsa, zs=zs).squeeze()
+                    q2 = c_.q2(sa, zsa=zsa, zs=zs).squeeze()
+                    return jnp.mean((q1 - y) ** 2 + (q2 - y) ** 2)
 
                 g = refgrad("td7:critic" + str(qlim[1]), fn, (critic, fixed, fixed_t, critic_t), (obs, act, nobs, nact, rew, term))
                 # gradients w.r.t. the fixed embeddings / target are reported for the at-risk counter only
